@@ -335,7 +335,7 @@ fn hand_lowered(c: &Case) -> InstructionGeneratorResult {
         }
         push(Instruction::PrintEnd);
     }
-    InstructionGeneratorResult { instructions: ins, statement_addresses: addrs }
+    InstructionGeneratorResult { instructions: ins, statement_addresses: addrs, label_depths: Default::default() }
 }
 
 /// Runs the case on the real code. Returns the outcome and (source level) the lowering tags.
